@@ -156,7 +156,7 @@ theorem c01_entry_bits (w : UInt32) :
     (decodeEntryData w).dataFileId = ((w >>> 1) &&& 7).toUInt8 ∧
     (decodeEntryData w).offset = (w >>> 4).toUInt64 * 128 := by
   simp only [decodeEntryData]
-  refine ⟨?_, ?_, ?_⟩ <;> bv_decide
+  refine ⟨?_, ?_, ?_⟩ <;> bv_decide (timeout := 300)
 
 /-- the location word written by the encoder decodes to the entry's fields -/
 theorem c01_entry_roundtrip (e : Entry) (h : e.wf = true) :
